@@ -24,6 +24,10 @@ CHECKS = {
    text="1-4 builder threads build drawn multisets of a 14-function corpus concurrently (some builds failing: error in the graph function, failed input check, writer refusing the name, KeyboardInterrupt), interleaved with SynthDesc reads that share the build lock/global context and with tape-driven heap perturbation, executed by real sc3 (RT and NRT mode) under the kernel with LINE-level pre-emption (sys.monitoring) inside sc3/synth/* and sc3/base/main.py; every successful build must equal the pristine bytes from a separate fresh process, failing builds raise to their caller only, no residue (global context, lock, unit generators created outside) when nothing builds, later sequential builds equal pristine, no builder parked forever; plus the whole corpus built twice in fresh interpreters under 3 (quick) / 8 (thorough) PYTHONHASHSEED values with ASLR on, in both modes. Exploration, not proof.",
    note="Pre-emption at LINE events only; violations caused by address-dependent iteration order are confirmed by repeated replay instead of by digest equality.",
    tech="deterministic simulation with fault injection (line-level pre-emptive scheduling of concurrent/failing builds via sys.monitoring; fresh-interpreter hash-seed sweep)"),
+ 'C17': dict(
+   text="Tape-generated histories of Synth/Group/ParGroup creation (every add action, default/server/group/node targets, list and dict arguments, bus and buffer objects as values), set/setn/fill/map/run/release/move/free/trace, Buffer (single, consecutive, zero/set/setn/fill, free, double free, free_all) and Bus (alloc, set/setn, free, double free) operations, inside and outside `with s.bind():` blocks with exceptions injected at every position (F9) and send errors (F6), issued from the main thread or from a routine, for several client ids, executed by real sc3 in the simulated RT world against a fake scsynth (and in the NRT world against the score). Oracles: command-reference grammar of everything the server receives, id ledger fed by monitors on the real allocators, per-operation expected commands from an independent protocol model, freed ids returned to the allocator, bind-block atomicity/ordering/timetag/address restoration. Exploration, not proof.",
+   note="The fake server's grammar is a transcription of the Server Command Reference; stale Buffer objects after Buffer.free_all and members of a consecutive allocation are not used individually (documented limitations); after an injected send error only wire-level checks continue.",
+   tech="deterministic simulation with fault injection (op histories with injected exceptions/send errors against a simulated peer that validates the protocol)"),
  'C18': dict(
    text="Real sc3 receive path (UDP receive threads on two simulated ports -> _osclib decoder -> SystemClock dispatch -> dispatchers/matchers -> responders) in the simulated RT world under scheduling/timing faults, driven by tape-generated histories of responder creation, enable/disable/free/one_shot/function replacement, CmdPeriod, SystemAction/ServerAction/NotificationCenter add/remove/run interleaved with datagrams from simulated remote endpoints: valid messages and nested bundles with literal and pattern addresses sharing prefixes, and F5-mutated datagrams (truncation, bit flips, tampered element lengths incl. negative, junk, empty, trailing bytes, duplicates). Oracles: responder-registry model, textbook OSC pattern matcher (both readings, disagreements counted as ambiguous), strict independent decoder, callback arguments, receiver liveness incl. a deterministic LINE-event hang detector, probe message after every faulty datagram. Exploration, not proof.",
    note="Registry operations are issued at quiescent points (sequentially consistent with dispatches); datagrams the library accepts but the strict decoder rejects are counted (lenient-accept), not judged; order across the two default dispatchers is unconstrained.",
